@@ -49,6 +49,9 @@ SPEC = dict(
         "received elements named message/presence/iq are in the jabber:client namespace (handleStanza looks at the tag name only)",
         "the sequence number the model assigns to a stored packet is the server's count of it, i.e. the transport delivers what was written, "
         "in order, while the connection is up (no server/channel model)",
+        "hmono (hypothesis of failed_h_covered_never_resent): a server does not answer a later <resume/> for the same previd with a lower "
+        "<failed h/> than before; conforming servers cannot (h is non-decreasing within a session); otherwise stanzas between the two counts "
+        "are retransmitted (duplicates, no loss)",
         "which of <resume/> or <enable/> the client requests on a new connection (canResume logic) is observed, not modelled (C10)",
     ],
     level_text="Theorems for every history of any length and every set of re-entrant (sending, depth one) report continuations: unacknowledged "
@@ -56,8 +59,10 @@ SPEC = dict(
                "after resetCache; 'acknowledged' only for a stored packet numbered <= an h received in <a/>, <resumed/> or <failed/>; <a h/> "
                "confirms exactly the stored packets <= h; <resumed h/> / <enabled/> write exactly the stored packets beyond h (and beyond a "
                "pending <failed/> count) in order, then <r/>, then only packets created by the continuations, and everything they write is "
-               "numbered; a reported packet is never written again; packets covered by <failed h/> are never written again (server not "
-               "lowering its count) and are confirmed; <enabled/> renumbers 1..n; every written h equals the number of stanzas received on "
+               "numbered; a reported packet is never written again; packets covered by <failed h/> are never written again under the named hypothesis hmono "
+               "(failed_h_covered_never_resent: no later <failed h'/> with h' < h for the same dead session -- an environment assumption, "
+               "XEP-0198's h never decreases so no conforming server violates it; the code overwrites the stored count) and are confirmed; "
+               "<enabled/> renumbers 1..n; every written h equals the number of stanzas received on "
                "that session. The 2^32 wrap is NOT in the model (unbounded counters): probed on the real class only (inbound wraps "
                "correctly, outbound does not: recorded finding).",
     level_note="Proved about the hand-written model; model-to-code tie is differential on a real QXmppOutgoingClient driven by a scripted "
